@@ -12,6 +12,14 @@
 //     under all Markdown options; oracle = the harness's Markdown reader (mdread.go).
 //  4. heading sweep (headsweep.go): every source level a format can express x every heading
 //     configuration x every Markdown entry point, on one file per case.
+//  5. rag documents (ragdocs.go): the Markdown writer of the PDF pipeline, model.Document ->
+//     rag.ChunkDocument -> ChunkCollection.ToMarkdownWithOptions, on authored documents with
+//     recurring heading texts, both heading spellings, lists, tables, page breaks, all options.
+//
+// Tables carry a header marking (Head, docwriters.go): 0..all leading header rows in every
+// spelling a format has (HTML thead/th/td/tfoot and row-header cells, DOCX w:tblHeader, ODT
+// table-header-rows / table-rows, PPTX firstRow), in the direct stream (model, docx, htmldoc input
+// types) and in the generated documents; heading texts recur in half of the documents.
 package c15
 
 import (
@@ -212,6 +220,86 @@ type tabCase struct {
 	Writer string     `json:"writer"`
 	Table  [][]string `json:"table,omitempty"`
 	Span   [][]Cell   `json:"span,omitempty"`
+	Head   *Head      `json:"head,omitempty"`
+}
+
+// isHeadCell: the cell (i, j) of a table whose source marks h as header is a header cell: it lies in
+// one of the h.Rows leading header rows or is the row-header cell of a body row.
+func isHeadCell(h Head, i, j int) bool { return i < h.Rows || (h.RowHead && j == 0) }
+
+// writeHeadTable sends a plain table whose source marks header rows / cells (Head) through the
+// writers whose input type can say so: model.Cell.IsHeader, docx ParsedTableRow.IsHeader (w:tblHeader),
+// htmldoc TableCell.IsHeader (a <th>, or any cell inside <thead>) with ParsedTable.HasHeader (the
+// table has a <thead>, or its first row has a <th>).
+func writeHeadTable(w string, t [][]string, h Head) string {
+	switch w {
+	case "model":
+		mt := &model.Table{}
+		for i, row := range t {
+			var cells []model.Cell
+			for j, c := range row {
+				cells = append(cells, model.Cell{Text: c, RowSpan: 1, ColSpan: 1, IsHeader: isHeadCell(h, i, j)})
+			}
+			mt.Rows = append(mt.Rows, cells)
+		}
+		return mt.ToMarkdown()
+	case "docx":
+		pt := &docx.ParsedTable{}
+		for i, row := range t {
+			pr := docx.ParsedTableRow{IsHeader: i < h.Rows}
+			for _, c := range row {
+				pr.Cells = append(pr.Cells, docx.ParsedTableCell{Text: c, ColSpan: 1, RowSpan: 1})
+			}
+			pt.Rows = append(pt.Rows, pr)
+		}
+		return pt.ToMarkdown()
+	case "html":
+		pt := &htmldoc.ParsedTable{HasHeader: (h.Rows > 0 && h.Via <= 1) || isHeadCell(h, 0, 0)}
+		for i, row := range t {
+			var cells []htmldoc.TableCell
+			for j, c := range row {
+				cells = append(cells, htmldoc.TableCell{Text: c, IsHeader: isHeadCell(h, i, j), RowSpan: 1, ColSpan: 1})
+			}
+			pt.Rows = append(pt.Rows, cells)
+		}
+		return pt.ToMarkdown()
+	}
+	panic("head writer " + w)
+}
+
+// runHeadTable: a header marking never changes which rows x columns of cell texts the table is.
+func runHeadTable(c *hx.Ctx, w string, t [][]string, h Head) {
+	kase := tabCase{Kind: "headtable", Writer: w, Table: t, Head: &h}
+	var md string
+	if p := hx.Safe(func() { md = writeHeadTable(w, t, h) }); p != "" {
+		c.Check("C15/panic", false, kase, func() string { return w + " ToMarkdown: " + p })
+		return
+	}
+	if w == "docx" {
+		st := make([][]Cell, len(t))
+		for i, row := range t {
+			for _, s := range row {
+				st[i] = append(st[i], Cell{Text: s, ColSpan: 1})
+			}
+		}
+		c.Op("c15.mdspan "+w+" "+encSpanTable(st), hx.HexS(md))
+	} else {
+		c.Op("c15.mdtab "+w+" "+encTable(t), hx.HexS(md))
+	}
+	got, ok := GFMTable(strings.Split(md, "\n"))
+	c.Op("c15.gfm "+hx.HexS(md), encGrid(got, ok))
+	checkGrid(c, w+"-head", md, normGrid(t), kase)
+	c.Count(fmt.Sprintf("head-table %s header-rows=%d of %d", w, min(h.Rows, 4), min(len(t), 4)))
+}
+
+var headWriters = []string{"model", "docx", "html"}
+
+// genHead: 0..all leading header rows (a one-row header most often, as documents have), a row-header
+// column now and then, every spelling of the HTML header.
+func genHead(r *hx.Rng, rows int) Head {
+	h := Head{Set: true, Rows: hx.Pick(r, []int{0, 1, 1, 2, 2, 3, rows - 1, rows}), Via: r.Intn(HeadVias("html")), RowHead: r.Chance(1, 4)}
+	h.Rows = min(max(h.Rows, 0), rows)
+	return h
 }
 
 // checkGrid compares what the GFM reader sees in md with the authored grid.
@@ -396,12 +484,29 @@ func direct(c *hx.Ctx) {
 		runSpanTable(c, w, [][]Cell{{{Text: "A", ColSpan: 2}, {Text: "B", ColSpan: 1}}, {{Text: "c", ColSpan: 1}, {Text: "d", ColSpan: 1}, {Text: "e", ColSpan: 1}}})
 		runSpanTable(c, w, [][]Cell{{{Text: "A", ColSpan: 1}, {Text: "B", ColSpan: 1}}, {{VCont: true, ColSpan: 1}, {Text: "x", ColSpan: 1}}})
 	}
+	// header markings: group header over column header, header rows only, row headers, none
+	grid43 := [][]string{{"Region", "Sales", "Costs"}, {"name", "EUR", "EUR"}, {"North", "10", "7"}, {"South", "20", "9"}}
+	for k := 0; k <= 4; k++ {
+		for via := 0; via < HeadVias("html"); via++ {
+			for _, rowHead := range []bool{false, true} {
+				for _, w := range headWriters {
+					runHeadTable(c, w, grid43, Head{Set: true, Rows: k, Via: via, RowHead: rowHead})
+				}
+			}
+		}
+	}
 	n := c.N(400, 6000)
 	for i := 0; i < n; i++ {
 		r := c.Rng.Fork(uint64(1)<<40 | uint64(i))
 		t := genTable(r)
 		for _, w := range tableWriters {
 			runPlainTable(c, w, t, true)
+		}
+		if i%2 == 1 {
+			h := genHead(c.Rng.Fork(uint64(40)<<40|uint64(i)), len(t))
+			for _, w := range headWriters {
+				runHeadTable(c, w, t, h)
+			}
 		}
 		if i%4 == 0 {
 			runPlainTable(c, "html-noth", t, true)
@@ -444,11 +549,12 @@ func direct(c *hx.Ctx) {
 }
 
 func Run(c *hx.Ctx) {
-	c.Rep.Rule = "direct: random tables (1..14 rows x 1..12 cols; cells from an alphabet with '|', newline, spaces, empty, unicode, markdown punctuation; no backslash) through all six ToMarkdown writers, docx/odt also with random ColSpan/vertical-merge cells; levels: the full box level -1..10 x offset -3..8 x max 0..7; documents: random block sequences (headings of every level the format expresses — DOCX 1..9 as built-in style / direct outlineLvl / custom style / derived style, ODT 1..10, HTML 1..6, PPTX titles —, paragraphs, nested lists depth<=3, tables with merges) written by independent DOCX/ODT/PPTX/HTML/XLSX writers under all Markdown options (metadata x TOC x offset -2..+7 x max 1..6, enumerated); heading sweep: per format files with a heading of every expressible level, each read under all 70 configurations (offset -2..+7 x max 0..6) through Reader.MarkdownWithRAGOptions, tabula.Open.ToMarkdownWithOptions and once through Reader.Markdown, Reader.MarkdownWithOptions, tabula.Open.ToMarkdown; non-trivial = table containing '|' or newline, document with a table/heading/list; distinct by canonical input"
+	c.Rep.Rule = "direct: random tables (1..14 rows x 1..12 cols; cells from an alphabet with '|', newline, spaces, empty, unicode, markdown punctuation; no backslash) through all six ToMarkdown writers, docx/odt also with random ColSpan/vertical-merge cells; levels: the full box level -1..10 x offset -3..8 x max 0..7; documents: random block sequences (headings of every level the format expresses — DOCX 1..9 as built-in style / direct outlineLvl / custom style / derived style, ODT 1..10, HTML 1..6, PPTX titles —, paragraphs, nested lists depth<=3, tables with merges) written by independent DOCX/ODT/PPTX/HTML/XLSX writers under all Markdown options (metadata x TOC x offset -2..+7 x max 1..6, enumerated); heading sweep: per format files with a heading of every expressible level, each read under all 70 configurations (offset -2..+7 x max 0..6) through Reader.MarkdownWithRAGOptions, tabula.Open.ToMarkdownWithOptions and once through Reader.Markdown, Reader.MarkdownWithOptions, tabula.Open.ToMarkdown; head tables: the same random tables through model/docx/htmldoc ToMarkdown with 0..all leading rows marked as header rows (IsHeader / HasHeader as a thead, th-only rows, td-in-thead or a row-header column produce them), and in the documents as HTML thead/tbody/tfoot/bare tr with th or td, DOCX w:tblHeader, ODT table-header-rows(+table-rows), PPTX firstRow; heading texts drawn from a pool of 2-3 recurring titles in half of the documents; rag documents: model.Document (headings 1..6 as model.Heading or as heading-like paragraph listed in Layout.Headings, recurring titles adjacent and apart, paragraphs, lists depth<=3, tables with header marks, page breaks) through rag.ChunkDocument(doc).ToMarkdownWithOptions under offset -2..+7 x max 1..6 x metadata x TOC x chunk separators x page numbers x chunk ids x document title; non-trivial = table containing '|' or newline, document with a table/heading/list; distinct by canonical input"
 	direct(c)
 	levels(c)
 	documents(c)
 	headingSweep(c)
+	ragDocuments(c)
 }
 
 // Replay re-runs one recorded failing case on the implementation.
@@ -466,6 +572,19 @@ func Replay(c *hx.Ctx, kase map[string]interface{}) {
 			t = append(t, cells)
 		}
 		runPlainTable(c, w, t, true)
+	case "headtable":
+		w, _ := kase["writer"].(string)
+		var t [][]string
+		for _, row := range kase["table"].([]interface{}) {
+			var cells []string
+			for _, x := range row.([]interface{}) {
+				cells = append(cells, x.(string))
+			}
+			t = append(t, cells)
+		}
+		var h Head
+		hx.Remarshal(kase["head"], &h)
+		runHeadTable(c, w, t, h)
 	case "span":
 		w, _ := kase["writer"].(string)
 		var t [][]Cell
@@ -490,6 +609,9 @@ func Replay(c *hx.Ctx, kase map[string]interface{}) {
 		idx, _ := kase["index"].(float64)
 		format, _ := kase["format"].(string)
 		runDocument(c, int(idx), format, true)
+	case "ragdoc":
+		idx, _ := kase["index"].(float64)
+		runRagDoc(c, int(idx))
 	case "hsweep":
 		idx, _ := kase["index"].(float64)
 		format, _ := kase["format"].(string)
